@@ -343,6 +343,298 @@ def model_json_req(line):
     return "grep.json_invalid"
 
 
+# ---- the decoded JSON value for the model of the record structs (DeltaModel/RipGrepJson.lean) ----
+# Python's json only turns the *text* into a value (objects as ordered pair lists, duplicates kept; integer
+# literals kept as written); which values are records is decided by the model's reading of the structs.
+
+class _JObj(list):
+    pass
+
+
+class _JInt(str):
+    pass
+
+
+class _JOther:
+    pass
+
+
+def _bad_const(s):
+    raise ValueError("not JSON: " + s)
+
+
+def jval_of_text(line):
+    """JSON text -> value over None / bool / _JInt / _JOther / str / list / _JObj(pairs); None-raising on non-JSON."""
+    return json.loads(line, object_pairs_hook=_JObj, parse_int=_JInt, parse_float=lambda s: _JOther(), parse_constant=_bad_const)
+
+
+def jval_tokens(v, out=None, depth=0):
+    """Prefix notation of `grep.json_value` (see lean/Driver/Grep.lean)."""
+    out = [] if out is None else out
+    if depth > 100:
+        raise ValueError("too deep for serde_json's recursion limit")
+    if v is None:
+        out.append("N")
+    elif v is True:
+        out.append("T")
+    elif v is False:
+        out.append("F")
+    elif isinstance(v, _JInt):
+        # serde_json: an integer literal with a minus sign is not a u64 (`-0` is a float)
+        out.append("R" if v.startswith("-") else "I%d" % int(v))
+    elif isinstance(v, _JOther):
+        out.append("R")
+    elif isinstance(v, str):
+        out.append("S" + hx(v))          # raises on lone surrogates: the text parsers differ there (not generated)
+    elif isinstance(v, _JObj):
+        out.append("O%d" % len(v))
+        for k, x in v:
+            out.append("K" + hx(k))
+            jval_tokens(x, out, depth + 1)
+    elif isinstance(v, list):
+        out.append("A%d" % len(v))
+        for x in v:
+            jval_tokens(x, out, depth + 1)
+    else:
+        raise ValueError("not a JSON value: %r" % (v,))
+    return out
+
+
+def line_tokens(line):
+    """Tokens of the line's JSON value, or None when the line is not JSON text (both parsers agree on that for
+    everything this module generates)."""
+    try:
+        return jval_tokens(jval_of_text(line))
+    except Exception:
+        return None
+
+
+def model_json_value_req(line):
+    t = line_tokens(line)
+    return "grep.json_invalid" if t is None else "grep.json_value " + " ".join(t)
+
+
+def dumps_pairs(v, ascii_only=False):
+    """JSON text of a value whose objects are lists of (key, value) pairs (class P): order and duplicates kept."""
+    if isinstance(v, P):
+        return "{" + ",".join(json.dumps(k, ensure_ascii=ascii_only) + ":" + dumps_pairs(x, ascii_only) for k, x in v) + "}"
+    if isinstance(v, list):
+        return "[" + ",".join(dumps_pairs(x, ascii_only) for x in v) + "]"
+    if isinstance(v, RawNum):
+        return str(v)
+    return json.dumps(v, ensure_ascii=ascii_only)
+
+
+class P(list):
+    """an object as a list of (key, value) pairs"""
+
+
+class RawNum(str):
+    """a number literal written as given"""
+
+
+# The members of an `rg --json` match / context record (the grep_printer JSON format): everything else in a record
+# is a member a consumer must ignore. The oracle's extra members are drawn from names ripgrep releases have added or
+# could add; none of them is a member of the format at that level.
+EXTRA_NAMES = {
+    "top": ["version", "seq", "elapsed", "search_id", "Type", "types", "typ", "datas"],
+    "data": ["binary_offset", "stats", "column", "encoding", "replacement", "path_bytes", "line", "submatch", "text"],
+    "text": ["lossy", "encoding", "len", "Text", "texts", "utf8"],
+    "submatch": ["replacement", "captures", "column", "name", "Match", "starts", "ending", "line_number"],
+}
+
+
+def gen_json_junk(rng, depth=0):
+    k = rng.random()
+    if depth > 2 or k < 0.55:
+        return rng.choice([None, True, False, 0, 7, -3, 1.5, RawNum("1e3"), RawNum("18446744073709551616"), "", "x", "VAR", "日本", "a\tb\n",
+                           '{"type":"match"}', "text"])
+    if k < 0.75:
+        return [gen_json_junk(rng, depth + 1) for _ in range(rng.randint(0, 3))]
+    # (objects that look like parts of a record, too)
+    keys = ["text", "bytes", "start", "end", "match", "type", "data", "path", "lines", "human", "secs", "nanos"]
+    return P((rng.choice(keys), gen_json_junk(rng, depth + 1)) for _ in range(rng.randint(0, 3)))
+
+
+def with_extras(rng, pairs, level, p_extra, added):
+    """`pairs` plus, with probability p_extra, 1-2 members of names the format does not have at this level."""
+    pairs = list(pairs)
+    if rng.random() < p_extra:
+        for _ in range(rng.choice([1, 1, 2])):
+            name = rng.choice(EXTRA_NAMES[level])
+            val = P([("text", "VAR")]) if name == "replacement" and rng.random() < 0.7 else gen_json_junk(rng)
+            pairs.insert(rng.randint(0, len(pairs)), (name, val))
+            added.append(level)
+    return pairs
+
+
+def rg_json_family(rng, kind, path, num, text, subs, ascii_only=False, p_extra=0.5, reorder=None, drop_null_number=None):
+    """One `rg --json` match / context record with this meaning, written the way a (newer, other) ripgrep may write
+    it: members the format does not have today at any of the four levels (record, data, path/lines/match text
+    object, submatch), members in another order, `line_number` absent instead of null. Returns (line, what) where
+    `what` names the input class (`extra:top+submatch`, `reordered`, `number-absent`, `plain`)."""
+    added = []
+    # a quarter without new members, a third with new members at exactly one level, the rest at any
+    r = rng.random()
+    levels = [] if r < 0.25 else ([rng.choice(["top", "data", "text", "submatch", "submatch"])] if r < 0.6 else ["top", "data", "text", "submatch"])
+    if len(levels) == 1:
+        p_extra = 0.85
+    reorder = rng.random() < 0.35 if reorder is None else reorder
+    drop = (rng.random() < 0.5) if drop_null_number is None else drop_null_number
+
+    def obj(pairs, level):
+        pairs = with_extras(rng, pairs, level, p_extra if level in levels else 0.0, added)
+        if reorder:
+            rng.shuffle(pairs)
+        return P(pairs)
+
+    def text_obj(s):
+        return obj([("text", s)], "text")
+    data = text.encode()
+    sm = [obj([("match", text_obj(data[a:b].decode("utf-8", "replace"))), ("start", a), ("end", b)], "submatch") for a, b in subs]
+    d = [("path", text_obj(path)), ("lines", text_obj(text))]
+    dropped = num is None and drop
+    if not dropped:
+        d.append(("line_number", num))
+    d += [("absolute_offset", rng.choice([0, 17, 35837, 2 ** 40])), ("submatches", sm)]
+    rec = obj([("type", kind), ("data", obj(d, "data"))], "top")
+    what = []
+    if added:
+        what.append("extra:" + "+".join(sorted(set(added), key=["top", "data", "text", "submatch"].index)))
+    if reorder:
+        what.append("reordered")
+    if dropped:
+        what.append("number-absent")
+    return dumps_pairs(rec, ascii_only), ",".join(what) or "plain"
+
+
+def rg_json_meta(rng, typ, path, rich):
+    """begin / end / summary records as ripgrep writes them (with their stats), members the structs of delta know
+    nothing about anyway."""
+    el = P([("secs", 0), ("nanos", rng.randint(1, 10 ** 6)), ("human", "0.000017s")])
+    stats = P([("elapsed", el), ("searches", 1), ("searches_with_match", 1), ("bytes_searched", rng.randint(1, 10 ** 5)),
+               ("bytes_printed", rng.randint(1, 10 ** 4)), ("matched_lines", rng.randint(1, 9)), ("matches", rng.randint(1, 9))])
+    if typ == "begin":
+        d = P([("path", P([("text", path)]))])
+    elif typ == "end":
+        d = P([("path", P([("text", path)])), ("binary_offset", None), ("stats", stats)]) if rich else P([("path", P([("text", path)])), ("stats", P())])
+    else:
+        d = P([("elapsed_total", el), ("stats", stats)]) if rich else P([("elapsed_total", P([("secs", 0)])), ("stats", P())])
+    pairs = [("type", typ), ("data", d)]
+    if rich and rng.random() < 0.5:
+        pairs.reverse()
+    return dumps_pairs(P(pairs))
+
+
+STRUCT_ORDER = {"top": ["type", "data"], "data": ["path", "lines", "line_number", "absolute_offset", "submatches"],
+                "text": ["text"], "submatch": ["match", "start", "end"]}
+
+
+def _level_of(o):
+    ks = [k for k, _ in o]
+    if "data" in ks and "type" in ks:
+        return "top"
+    if "path" in ks and "lines" in ks:
+        return "data"
+    if "start" in ks and "end" in ks:
+        return "submatch"
+    if "text" in ks:
+        return "text"
+    return None
+
+
+def _objects(v, acc):
+    if isinstance(v, P):
+        acc.append(v)
+        for _, x in v:
+            _objects(x, acc)
+    elif isinstance(v, list):
+        for x in v:
+            _objects(x, acc)
+    return acc
+
+
+def _replace(v, target, new):
+    """the tree with the node `target` (by identity) replaced"""
+    if v is target:
+        return new
+    if isinstance(v, P):
+        return P((k, _replace(x, target, new)) for k, x in v)
+    if isinstance(v, list):
+        return [_replace(x, target, new) for x in v]
+    return v
+
+
+def mutate_record(rng, line):
+    """A JSON value near a record but (mostly) outside the format: what serde makes of it is compared with the model
+    only (no promise of the property). Returns (text, name)."""
+    v = json.loads(line, object_pairs_hook=P)
+    objs = [o for o in _objects(v, []) if _level_of(o)]
+    o = rng.choice(objs)
+    lvl = _level_of(o)
+    known = STRUCT_ORDER[lvl]
+    k = rng.random()
+    if k < 0.14:
+        # a member of the format twice
+        i = rng.randrange(len(o))
+        new = P(o)
+        new.insert(rng.randint(0, len(new)), (o[i][0], rng.choice([o[i][1], None, 0, "x"])))
+        return dumps_pairs(_replace(v, o, new)), "duplicate-member:" + ("known" if o[i][0] in known else "unknown")
+    if k < 0.28:
+        cand = [i for i, (kk, _) in enumerate(o) if kk in known]
+        i = rng.choice(cand)
+        return dumps_pairs(_replace(v, o, P(o[:i] + o[i + 1:]))), "member-dropped:" + o[i][0]
+    if k < 0.46:
+        cand = [i for i, (kk, _) in enumerate(o) if kk in known]
+        i = rng.choice(cand)
+        old = o[i][1]
+        if isinstance(old, (bool, float)):
+            new = rng.choice([None, 1, "x"])
+        elif isinstance(old, int):
+            new = rng.choice([RawNum("-1"), RawNum("-0"), RawNum("1.0"), RawNum("1e2"), RawNum("18446744073709551615"), RawNum("18446744073709551616"),
+                              "7", True, None, [old]])
+        elif isinstance(old, str):
+            new = rng.choice([7, None, [old], P([("text", old)]), "begin", "Match", "contextheader", "ignore", "fileheader", "context", old.upper()])
+        elif old is None:
+            new = rng.choice([False, "", RawNum("0"), [], P()])
+        elif isinstance(old, P):
+            new = rng.choice([None, [], "x", P([("bytes", "AAA=")]), P([("bytes", "AAA=")] + list(old))])
+        else:
+            new = rng.choice([None, P(), "x", old + [7], old + [P()]])
+        return dumps_pairs(_replace(v, o, P(o[:i] + [(o[i][0], new)] + o[i + 1:]))), "member-of-another-type:" + o[i][0]
+    if k < 0.62:
+        # the struct written as an array of its fields (serde accepts that), exact / too short / too long
+        d = dict(o)
+        if all(sum(1 for kk, _ in o if kk == f) == 1 for f in known if f != "line_number"):
+            arr = [d.get(f) for f in known]
+            m = rng.random()
+            name = "struct-as-array"
+            if m < 0.25:
+                arr = arr[:-1]; name += ":short"
+            elif m < 0.5:
+                arr = arr + [rng.choice([None, 0])]; name += ":long"
+            return dumps_pairs(_replace(v, o, arr)), name
+    if k < 0.74:
+        top = [x for x in objs if _level_of(x) == "top"]
+        if top:
+            t = top[0]
+            i = [kk for kk, _ in t].index("type")
+            word = t[i][1]
+            new = rng.choice([P([(word, None)]), P([(word, None)]), P([(word, 1)]), P([(word, None), ("x", 1)]), P(), [word]])
+            return dumps_pairs(_replace(v, t, P(t[:i] + [("type", new)] + t[i + 1:]))), "type-as-object"
+    if k < 0.9:
+        top = [x for x in objs if _level_of(x) == "top"]
+        if top:
+            t = top[0]
+            w = rng.choice(["begin", "end", "summary", "Begin", "other", "match", "context"])
+            new = P(t)
+            new.insert(rng.choice([0, len(new)]), ("type", w))
+            if rng.random() < 0.5:
+                new = P((kk, x) for kk, x in new if kk != "type" or x == w)
+            return dumps_pairs(_replace(v, t, new)), "type-word"
+    return dumps_pairs(rng.choice([[v], 7, "begin", None, [1, 2], P([("type", "begin")]), P([("x", 1)]), P()])), "not-a-record"
+
+
 def gen_spans(rng, data, valid=True):
     """Sorted disjoint spans on char boundaries of the UTF-8 `data` (bytes)."""
     bounds = [i for i in range(len(data) + 1) if i == len(data) or (data[i] & 0xC0) != 0x80]
@@ -602,10 +894,16 @@ def long_filler(rng, n):
     return ", ".join(out)
 
 
-def gen_stream(rng, flavour=None, probe=None, allow_funchdr=True, long_len=0, path_gen=None, numbered=None):
+def gen_stream(rng, flavour=None, probe=None, allow_funchdr=True, long_len=0, path_gen=None, numbered=None, rich=None):
     """A grep result stream: dict(flavour, guess, numbered, lines=[str], hits=[dict|None per line]).
-    long_len > 0: some records (match, context, and for rg --json also begin/end via a long path) exceed it."""
+    long_len > 0: some records (match, context, and for rg --json also begin/end via a long path) exceed it.
+    rich (rg --json only): the records are written as another ripgrep may write them (rg_json_family: members the
+    format does not have today, at any level; members reordered; line_number absent) and begin / end / summary
+    carry their statistics."""
     flavour = flavour or rng.choice(["plain", "plain", "gitcolour", "rgcolour", "json", "json"])
+    if rich is None:
+        rich = flavour == "json" and rng.random() < 0.45
+    rich_what = []
     if numbered is None:
         numbered = rng.random() < 0.65 or flavour == "json" and rng.random() < 0.8
     context = rng.random() < 0.5 or (long_len > 0 and flavour == "json")
@@ -632,7 +930,7 @@ def gen_stream(rng, flavour=None, probe=None, allow_funchdr=True, long_len=0, pa
             p = "/".join("dir%03d" % k for k in range(long_len // 7 + 2)) + "/" + p   # long begin/end/match records
         paths.append(p)
     if flavour == "json":
-        lines.append(json.dumps({"type": "begin", "data": {"path": {"text": paths[0]}}}))
+        lines.append(rg_json_meta(rng, "begin", paths[0], rich) if rich else json.dumps({"type": "begin", "data": {"path": {"text": paths[0]}}}))
         hits.append(None)
     n = 0
     for pi, path in enumerate(paths):
@@ -668,7 +966,12 @@ def gen_stream(rng, flavour=None, probe=None, allow_funchdr=True, long_len=0, pa
                 subs = [s for s in subs if s[0] < s[1]] if rng.random() < 0.8 else subs
                 h["subs"] = subs if kind == "match" else None
                 eol = rng.choice(["\n", "\n", "\r\n", ""])
-                lines.append(rg_json(kind, path, num, code + eol, subs, ascii_only=rng.random() < 0.3))
+                if rich:
+                    ln, what = rg_json_family(rng, kind, path, num, code + eol, subs, ascii_only=rng.random() < 0.3)
+                    lines.append(ln)
+                    rich_what.append(what)
+                else:
+                    lines.append(rg_json(kind, path, num, code + eol, subs, ascii_only=rng.random() < 0.3))
             else:
                 digits = None if num is None else str(num)
                 marked = mark_code(rng, code) if kind == "match" else ([(False, code)] if code else [])
@@ -682,14 +985,19 @@ def gen_stream(rng, flavour=None, probe=None, allow_funchdr=True, long_len=0, pa
             hits.append(h)
             prev_kind = kind
         if flavour == "json" and pi + 1 < len(paths):
-            lines.append(json.dumps({"type": "end", "data": {"path": {"text": path}, "stats": {}}}))
+            lines.append(rg_json_meta(rng, "end", path, rich) if rich else json.dumps({"type": "end", "data": {"path": {"text": path}, "stats": {}}}))
             hits.append(None)
-            lines.append(json.dumps({"type": "begin", "data": {"path": {"text": paths[pi + 1]}}}))
+            lines.append(rg_json_meta(rng, "begin", paths[pi + 1], rich) if rich else json.dumps({"type": "begin", "data": {"path": {"text": paths[pi + 1]}}}))
             hits.append(None)
     if flavour == "json":
-        lines.append(json.dumps({"data": {"elapsed_total": {"secs": 0}, "stats": {}}, "type": "summary"}))
+        lines.append(rg_json_meta(rng, "summary", "", rich) if rich else json.dumps({"data": {"elapsed_total": {"secs": 0}, "stats": {}}, "type": "summary"}))
         hits.append(None)
-    return dict(flavour=flavour, guess=guess, numbered=numbered, wflag=wflag, lines=lines, hits=hits)
+    st = dict(flavour=flavour, guess=guess, numbered=numbered, wflag=wflag, lines=lines, hits=hits)
+    if rich:
+        # the input class of the stream, for the signature of a failure: which kinds of variation its records carry
+        kinds = sorted({w.split(":")[0] if w.startswith("extra:") else w for ws in rich_what for w in ws.split(",")} - {"plain"})
+        st["json_class"] = "+".join(kinds).replace("extra", "extra-members") or "plain"
+    return st
 
 
 def in_domain(st, style, frags):
@@ -1014,6 +1322,52 @@ def run(ctx, rep):
             if got != want:
                 rep.violation("json:record-altered", f"rg --json record not kept: {l!r} -> {got}", dict(kind="hook", reqs=[f"grep.json {hx(l)}"], want=want, got=got))
 
+    # ---- 2b. which JSON values are records: the record structs as the model reads them from the source
+    #          (Generated/RipGrepJsonShape.lean, RipGrepJson.parseLine) vs serde, and the property's oracle on the
+    #          family of ways a ripgrep may write a record (members the format does not have today at each of the
+    #          four levels, members reordered, line_number absent)
+    fam = []   # (line, meaning | None, class)
+    for _ in range(ctx.n(450, 15000)):
+        kind = rng.choice(["match", "match", "context"])
+        code = gen_code(rng)
+        data = code.encode()
+        subs = gen_spans(rng, data) if kind == "match" else []
+        eol = rng.choice(["\n", "\n", "\r\n", ""])
+        num = rng.choice([None, None, 1, 12, 4096, 2 ** 64 - 1])
+        path = gen_path(rng)
+        line, what = rg_json_family(rng, kind, path, num, code + eol, subs, ascii_only=rng.random() < 0.3)
+        if "\n" in code or "\r" in code:
+            continue
+        fam.append((line, dict(gtype="ripgrep", kind=kind, path=path, num=num, code=code, subs=subs), what))
+        if rng.random() < 0.6:
+            try:
+                ml, name = mutate_record(rng, line)
+                fam.append((ml, None, "mutated:" + name))
+            except (ValueError, IndexError):
+                pass
+    # the existing mutated lines of section 2 go through the model of the structs as well
+    fam += [(l, None, "section-2") for l in jl]
+    impl = ctx.hook().ask([f"grep.json {hx(l)}" for l, _, _ in fam])
+    mreq = [model_json_value_req(l) for l, _, _ in fam]
+    model = mdl.ask(mreq) if have_model else [None] * len(fam)
+    shown_sigs = {}     # (a few failing inputs per input class are enough; the report keeps 50 in all)
+    for (l, want, what), i, m in zip(fam, impl, model):
+        rep.case(key=("json", l), nontrivial=i.startswith("ok some"),
+                 sample=dict(op="grep.json_value", line=l, impl=i, model=m, input_class=what) if (what.startswith("extra:") and len([s_ for s_ in rep.samples if s_.get("op") == "grep.json_value"]) < 2) else None)
+        rep.count("json-shape:" + what.split(",")[0].split(":")[0] + ":" + ("record" if i.startswith("ok some ripgrep") and " ignore " not in i else ("swallowed" if i.startswith("ok some") else "not-a-record")))
+        for w in what.split(","):
+            rep.count("json-family:" + w)
+        if m is not None:
+            rep.corr_case("grep.json_value", same(i, m), dict(line=l, impl=i, model=m, input_class=what))
+        if want is not None:
+            got = parse_resp(i)
+            if got != want and shown_sigs.get(what.split(",")[0].split(":")[0], 0) < 3:
+                shown_sigs[what.split(",")[0].split(":")[0]] = shown_sigs.get(what.split(",")[0].split(":")[0], 0) + 1
+                w0 = what.split(",")[0]
+                sig = "json:record-not-read:" + ("record-with-extra-members" if w0.startswith("extra:") else "record-" + w0)
+                rep.violation(sig, f"rg --json record ({what}) is not read as path / number / code / submatches: {l!r} -> {got}",
+                              dict(kind="line", op="grep.json", caller="none", line=l, want=want, got=got))
+
     # ---- 3. make_style_sections / expand_tabs
     sreqs, scases = [], []
     for _ in range(ctx.n(400, 20000)):
@@ -1100,7 +1454,7 @@ def model_hits_for(ctx, mdl, st):
     reqs = []
     for ln in st["lines"]:
         if ln.startswith("{"):
-            reqs.append(model_json_req(ln))
+            reqs.append(model_json_value_req(ln))
         elif ln.startswith(ESC):
             reqs.append(f"grep.parse_regex 0 {hx(ln)}")
             reqs.append(f"grep.parse {hx(strip_sgr(ln))}")
@@ -1215,6 +1569,84 @@ def run_streams(ctx, rep, streams, mdl):
         else:
             emit_idx.append(None)
     emit_ans = mdl.ask(emit_reqs) if (mdl is not None and emit_reqs) else []
+    # rg --json streams once more, whole: JSON values -> RipGrepJson.lineOf (parse_line + the hit the emission logic
+    # sees) -> Grep.emit, in one model call (the composition the theorem rendered_hit_independent_of_extra_members is about)
+    jemit_reqs, jemit_idx = [], []
+    for (si, style, tabw), ei in zip(jobs, emit_idx):
+        st = streams[si]
+        if ei is None or st["flavour"] != "json" or mdl is None:
+            jemit_idx.append(None)
+            continue
+        parts = []
+        for ln in st["lines"]:
+            t = line_tokens(ln)
+            parts.append(hx(ln) + " " + (" ".join(t) if t is not None else "-") + " ;")
+        jemit_reqs.append("grep.json_emit %s %d %d %d %s" % ("-" if style == "default" else style, tabw, 0 if st["wflag"] else 1, len(st["lines"]), " ".join(parts)))
+        jemit_idx.append(len(jemit_reqs) - 1)
+    jemit_ans = mdl.ask(jemit_reqs) if (mdl is not None and jemit_reqs) else []
+    for (si, style, tabw), (rc, out, err, args, data), ji in zip(jobs, results, jemit_idx):
+        if ji is None:
+            continue
+        m = jemit_ans[ji]
+        rows = decode_rows(out, style if style != "default" else "ripgrep") if rc == 0 else []
+        if rc != 0:
+            agree = m.startswith("PANIC") and rc == 101
+        elif not m.startswith("ok"):
+            agree = False
+        else:
+            agree = model_rows(m, "json") == canon_rows(rows, "json")
+        rep.corr_case("json_emit", agree, dict(kind="stream", args=args, stdin_b64=b64(data), style=style, tabw=tabw, model=m[:1500],
+                                               impl_rows=[list(r) for r in rows][:40], rc=rc, stderr=err[-300:], json_class=streams[si].get("json_class")))
+    # the layout of the classic-style rows: cells (text + the style that paints it) of the model (GrepRow.classicRow,
+    # make_output_config from the calling process) vs the cells of the binary's output rows
+    lay_reqs, lay_idx = [], []
+    for (si, style, tabw), ei in zip(jobs, emit_idx):
+        st = streams[si]
+        if (ei is None or mdl is None or style != "classic" or st["flavour"] not in ("plain", "json")
+                or st.get("variant", "base") not in ("base", "navigate") or st.get("mll") not in (None, 0)):
+            lay_idx.append(None)
+            continue
+        words = st["guess"].split(" ")
+        caller = "GitGrep" if words[:2] == ["git", "grep"] else ("OtherGrep" if words[0] in ("rg", "grep", "ag", "ack") else "None")
+        opts = [w for w in words if w.startswith("-")]
+        lay_reqs.append("grep.row_cells %d %s %s %d %s%s %d %d %s" % (
+            1 if st.get("variant") == "navigate" else 0, hx(BASE_OPTS["--grep-separator-symbol"]), caller, len(opts),
+            "".join(hx(o) + " " for o in opts), style, tabw, len(st["lines"]), " ".join(fields_per_stream[si])))
+        lay_idx.append(len(lay_reqs) - 1)
+    lay_ans = mdl.ask(lay_reqs) if (mdl is not None and lay_reqs) else []
+    letter = {PAL["file"]: "f", PAL["num"]: "n", PAL["word"]: "w", PAL["line"]: "l", PAL["ctx"]: "c", None: "p"}
+
+    def merged(cells):
+        o = []
+        for pnt, t in cells:
+            if not t:
+                continue
+            if o and o[-1][0] == pnt:
+                o[-1] = (pnt, o[-1][1] + t)
+            else:
+                o.append((pnt, t))
+        return o
+    for (si, style, tabw), (rc, out, err, args, data), li in zip(jobs, results, lay_idx):
+        if li is None or rc != 0:
+            continue
+        m = lay_ans[li]
+        if not m.startswith("ok"):
+            rep.corr_case("row_layout", False, dict(kind="stream", args=args, stdin_b64=b64(data), model=m[:600], why="model does not answer"))
+            continue
+        mrows = m.split(" | ")[1:]
+        olines = out.split("\n")
+        if olines and olines[-1] == "":
+            olines.pop()
+        if len(olines) != len(mrows):
+            rep.count("row_layout:skipped:row-count-differs")
+            continue
+        for mr, ol in zip(mrows, olines):
+            f = mr.split(" ")
+            if f[0] == "X":
+                continue
+            want = merged([(t[0], unhx(t[1:]).decode("utf-8", "replace")) for t in f[1:]])
+            got = merged([(letter.get(fg, "?" + str(fg)), t) for fg, t in segments(ol)])
+            rep.corr_case("row_layout", want == got, dict(kind="stream", args=args, guess=streams[si]["guess"], stdin_b64=b64(data), row=ol, model=want, impl=got))
     for (si, style, tabw), (rc, out, err, args, data), ei in zip(jobs, results, emit_idx):
         st = streams[si]
         eff_style = style if style != "default" else ("ripgrep" if st["flavour"] == "json" else "classic")
@@ -1228,7 +1660,10 @@ def run_streams(ctx, rep, streams, mdl):
         rep.count("max-line-length:%s%s" % (st.get("mll"), ":long-records" if any(len(l) > (3000 if st.get("mll") is None else (st.get("mll") or 300)) for l in st["lines"]) else ""))
         replay = dict(kind="stream", args=args, guess=st["guess"], stdin_b64=b64(data), style=eff_style, tabw=tabw,
                       variant=st.get("variant", "base"), mll=st.get("mll"),
-                      hits=[h and {k: v for k, v in h.items() if k != "marked"} for h in st["hits"]], flavour=st["flavour"], wflag=st["wflag"])
+                      hits=[h and {k: v for k, v in h.items() if k != "marked"} for h in st["hits"]], flavour=st["flavour"], wflag=st["wflag"],
+                      json_class=st.get("json_class"))
+        if st["flavour"] == "json":
+            rep.count("streams:json:records:" + (st.get("json_class") or "as-ripgrep-13-writes-them"))
         dom, why = in_domain(st, eff_style, frag_per_stream[si])
         rep.count("streams:in-domain" if dom else "streams:outside:" + why)
         # --- correspondence with the model's emit
@@ -1319,6 +1754,16 @@ def judge_stream(rep, st, style, tabw, rc, out, err, rows, replay):
         return
     want = expected_rows(st, tabw)
     got = shown_rows(rows)
+    if st["flavour"] == "json":
+        # no input record may show up as JSON text: every record is a hit (rendered) or metadata (swallowed)
+        cls = ":record-with-" + st["json_class"] if st.get("json_class") else ""
+        shown = ["".join(t for _, t in segments(OSC8.sub("", row))).strip() for row in out.split("\n")]
+        leaked = [t for t in shown if len(t) >= 8 and t.startswith("{") and any(l.startswith(t[:60]) for l in st["lines"])]
+        if leaked:
+            rep.violation("rows:raw-json-leaked" + cls,
+                          "%d rg --json record(s) are not recognised and appear as raw JSON text, e.g. %r" % (len(leaked), leaked[0][:160]),
+                          dict(replay, want=want, got=got))
+            return
     if any(r[0] == "?" for r in rows):
         rep.violation("rows:undecodable", "a row is not path/number/code in the reserved styles: %r" % [r for r in rows if r[0] == "?"][:2], replay)
         return
@@ -1475,7 +1920,7 @@ def replay(ctx, rep, obj):
         data = base64.b64decode(case["stdin_b64"])
         rc, out, err = ctx.run_delta(case["args"], data, env={"DELTA_VERIF_FORCE_GUESS": case["guess"]})
         out, err = out.decode("utf-8", "replace"), err.decode("utf-8", "replace")
-        st = dict(flavour=case["flavour"], guess=case["guess"], wflag=case.get("wflag", False), variant=case.get("variant", "base"), mll=case.get("mll"), lines=data.decode("utf-8", "replace").split("\n")[:-1],
+        st = dict(flavour=case["flavour"], guess=case["guess"], wflag=case.get("wflag", False), variant=case.get("variant", "base"), mll=case.get("mll"), json_class=case.get("json_class"), lines=data.decode("utf-8", "replace").split("\n")[:-1],
                   hits=[h and dict(h, subs=None if h.get("subs") is None else [tuple(s) for s in h["subs"]]) for h in case["hits"]])
         rows = decode_rows(out, case["style"]) if rc == 0 else []
         rep.case(key=("replay", case["stdin_b64"]), nontrivial=True, sample=dict(op="replay", rc=rc, rows=[list(r) for r in rows[:8]], stderr=err[-300:]))
@@ -1487,6 +1932,8 @@ def replay(ctx, rep, obj):
         got = ctx.hook(extra_env={"DELTA_VERIF_HOOK_CALLER": case["caller"]}).ask([f"{case['op']} {hx(case['line'])}"])[0]
         g = parse_resp(got)
         rep.case(key=("replay", case["line"]), nontrivial=True, sample=dict(op=case["op"], line=case["line"], impl=got))
+        if case["want"].get("subs") is not None:
+            case["want"]["subs"] = [tuple(x) for x in case["want"]["subs"]]
         if g != case["want"]:
             rep.violation(obj.get("signature", "misparse:replay"), f"{case['line']!r} -> {g}, expected {case['want']}", case)
     elif kind == "hook":
